@@ -467,8 +467,6 @@ ssize_t comp_read(zckCtx *zck, char *dst, size_t dst_size, bool use_dict) {
         zck_log(ZCK_LOG_ERROR, "OOM in %s", __func__);
         return false;
     }
-    bool finished_rd = false;
-    bool finished_dc = false;
     zck_log(ZCK_LOG_DEBUG, "Trying to read %llu bytes", (long long unsigned) dst_size);
     while(dc < dst_size) {
         /* Get bytes from decompressed buffer */
@@ -480,7 +478,7 @@ ssize_t comp_read(zckCtx *zck, char *dst, size_t dst_size, bool use_dict) {
             break;
         if(rb > 0)
             continue;
-        if(finished_dc || zck->comp.data_eof)
+        if(zck->comp.data_eof)
             break;
 
         /* Decompress compressed buffer into decompressed buffer */
@@ -529,13 +527,6 @@ ssize_t comp_read(zckCtx *zck, char *dst, size_t dst_size, bool use_dict) {
             continue;
         }
 
-        /* If we finished reading and we've reached here, we're done
-         * decompressing */
-        if(finished_rd) {
-            finished_dc = true;
-            continue;
-        }
-
         /* Make sure we don't read beyond current chunk length */
         size_t rs = dst_size;
         if(zck->comp.data_loc + rs > zck->comp.data_idx->comp_length)
@@ -547,8 +538,10 @@ ssize_t comp_read(zckCtx *zck, char *dst, size_t dst_size, bool use_dict) {
         if(rb < 0)
             goto read_error;
         if(rb < rs) {
-            zck_log(ZCK_LOG_DDEBUG, "EOF");
-            finished_rd = true;
+            /* rs never goes beyond the end of the current chunk */
+            set_fatal_error(zck, "Unexpected end of file inside chunk %llu",
+                            (long long unsigned) zck->comp.data_idx->number);
+            goto read_error;
         }
         if(zck->check_chunk_hash.ctx == NULL)
             if(!hash_init(zck, &(zck->check_chunk_hash),
